@@ -162,106 +162,6 @@ func TestVerifFrr(t *testing.T) {
 // fresh manager given only the final sets - and offers exactly what is requested
 // (the final text goes through the same parser / Coq / oracle as the other cases).
 
-type vHistOp struct {
-	Kind string `json:"kind"` // new set close
-	Sess int    `json:"sess"`
-	Advs []vAdv `json:"advs,omitempty"`
-}
-
-type vHist struct {
-	Base []vSess   `json:"base"` // session parameters (Advs ignored)
-	Ops  []vHistOp `json:"ops"`
-}
-
-func vCopyAdvs(a []vAdv) []vAdv {
-	out := make([]vAdv, len(a))
-	for i, x := range a {
-		out[i] = vAdv{Prefix: x.Prefix, LP: x.LP, Comms: append([]string{}, x.Comms...)}
-	}
-	return out
-}
-
-// a variation of an advertisement list that keeps one local preference per prefix
-func vMutateAdvs(r *rand.Rand, cur []vAdv) []vAdv {
-	out := vCopyAdvs(cur)
-	dupIdx := func() []int { // indexes of entries whose prefix occurs again LATER (non-last duplicates)
-		var idx []int
-		for i := range out {
-			for j := i + 1; j < len(out); j++ {
-				if out[j].Prefix == out[i].Prefix {
-					idx = append(idx, i)
-					break
-				}
-			}
-		}
-		return idx
-	}
-	newComms := func() []string {
-		var cs []string
-		for k, n := 0, 1+r.Intn(2); k < n; k++ {
-			c := vComms[r.Intn(len(vComms))]
-			if r.Intn(3) == 0 {
-				c = vLarge[r.Intn(len(vLarge))]
-			}
-			dup := false
-			for _, x := range cs {
-				dup = dup || x == c
-			}
-			if !dup {
-				cs = append(cs, c)
-			}
-		}
-		return cs
-	}
-	switch k := r.Intn(8); {
-	case k <= 1 && len(dupIdx()) > 0: // remove a non-last duplicate
-		d := dupIdx()
-		i := d[r.Intn(len(d))]
-		out = append(out[:i], out[i+1:]...)
-	case k <= 3 && len(dupIdx()) > 0: // change the communities of a non-last duplicate
-		d := dupIdx()
-		out[d[r.Intn(len(d))]].Comms = newComms()
-	case k <= 5 && len(out) > 0: // add a duplicate of an existing prefix IN FRONT, with other communities
-		x := out[r.Intn(len(out))]
-		out = append([]vAdv{{Prefix: x.Prefix, LP: x.LP, Comms: newComms()}}, out...)
-	case k == 6 && len(out) > 0: // drop any entry
-		i := r.Intn(len(out))
-		out = append(out[:i], out[i+1:]...)
-	default:
-		out = vGenAdvs(r, false)
-	}
-	return out
-}
-
-func vGenHist(r *rand.Rand) vHist {
-	h := vHist{Base: vGenSessions(r, false)}
-	cur := make([][]vAdv, len(h.Base))
-	alive := make([]bool, len(h.Base))
-	for i := range h.Base {
-		h.Ops = append(h.Ops, vHistOp{Kind: "new", Sess: i})
-		alive[i] = true
-		if len(h.Base[i].Advs) > 0 || r.Intn(2) == 0 {
-			h.Ops = append(h.Ops, vHistOp{Kind: "set", Sess: i, Advs: vCopyAdvs(h.Base[i].Advs)})
-			cur[i] = vCopyAdvs(h.Base[i].Advs)
-		}
-	}
-	for k, n := 0, 2+r.Intn(5); k < n; k++ {
-		i := r.Intn(len(h.Base))
-		switch {
-		case !alive[i]:
-			h.Ops = append(h.Ops, vHistOp{Kind: "new", Sess: i})
-			alive[i], cur[i] = true, nil
-		case r.Intn(8) == 0 && len(h.Base) > 1:
-			h.Ops = append(h.Ops, vHistOp{Kind: "close", Sess: i})
-			alive[i], cur[i] = false, nil
-		default:
-			cur[i] = vMutateAdvs(r, cur[i])
-			h.Ops = append(h.Ops, vHistOp{Kind: "set", Sess: i, Advs: vCopyAdvs(cur[i])})
-		}
-	}
-	return h
-}
-
 func vCorpusHist() []vHist {
 	base := vSess{MyASN: 100, RouterID: "10.1.1.254", PeerAddr: "10.2.2.254", PeerASN: 200, Port: 179, Hold: -1, Keep: -1, Connect: -1}
 	p, q := "172.16.1.10/32", "172.16.1.11/32"
@@ -271,6 +171,9 @@ func vCorpusHist() []vHist {
 		// one of the two advertisements of p goes away; the last entry per prefix is unchanged
 		{Kind: "set", Sess: 0, Advs: []vAdv{{Prefix: p, Comms: []string{"65000:200"}}, {Prefix: q, Comms: []string{}}}},
 		{Kind: "set", Sess: 0, Advs: []vAdv{{Prefix: p, Comms: []string{"large:64512:1:2"}}, {Prefix: p, Comms: []string{"65000:200"}}, {Prefix: q, Comms: []string{}}}},
+		// refused (two local preferences for p): the three entries above stay in force
+		{Kind: "setbad", Sess: 0, Why: "same prefix with another local preference", Advs: []vAdv{{Prefix: q, Comms: []string{}}, {Prefix: p, LP: 100, Comms: []string{}}, {Prefix: p, LP: 300, Comms: []string{}}}},
+		{Kind: "resync", Sess: 0},
 	}}}
 }
 
@@ -302,6 +205,19 @@ func vRunHist(out *vOut, h vHist, sm *sessionManager, current func(want string) 
 				return nil, "", false, true
 			}
 			state[op.Sess] = vCopyAdvs(op.Advs)
+		case "setbad":
+			b := h.Base[op.Sess]
+			b.Advs = op.Advs
+			if err := sessions[op.Sess].Set(vAdvertisements(b)...); err == nil {
+				out.Fail("frr-invalid-set-accepted", fmt.Sprintf("%s: step %d: Set with an advertisement list the manager must refuse (%s) returned no error", tag, step, op.Why), h)
+				return nil, "", false, true
+			}
+			// the previous set stays in force: state[op.Sess] unchanged
+		case "resync":
+			if err := sm.SyncExtraInfo(""); err != nil {
+				out.Fail("frr-history-api-error", fmt.Sprintf("%s: SyncExtraInfo failed at step %d: %v", tag, step, err), h)
+				return nil, "", false, true
+			}
 		case "close":
 			if err := sessions[op.Sess].Close(); err != nil {
 				out.Fail("frr-history-api-error", fmt.Sprintf("%s: Close failed at step %d: %v", tag, step, err), h)
@@ -342,7 +258,7 @@ func TestVerifFrrHist(t *testing.T) {
 	n := vN(60)
 	hs := vCorpusHist()
 	for len(hs) < n {
-		hs = append(hs, vGenHist(r))
+		hs = append(hs, vGenHist(r, true))
 	}
 	id := 100000
 	for _, h := range hs {
@@ -375,6 +291,12 @@ func TestVerifFrrHist(t *testing.T) {
 			}
 			if op.Kind == "close" {
 				out.Stat("hist_close", 1)
+			}
+			if op.Kind == "setbad" {
+				out.Stat("hist_rejected_set", 1)
+			}
+			if op.Kind == "resync" {
+				out.Stat("hist_resync", 1)
 			}
 		}
 		_ = ndupdrop
